@@ -500,10 +500,10 @@ func Statement(r *core.Rand, o Opts) string {
 		},
 		func() string { return "DROP DATABASE " + id() },
 		func() string {
-			return "CREATE RETENTION POLICY " + id() + " ON " + id() + " DURATION " + dur() + " REPLICATION " + strconv.Itoa(r.Range(1, 3)) + r.Pick([]string{"", " SHARD DURATION 1h", " DEFAULT", " SHARD DURATION 30m DEFAULT"})
+			return "CREATE RETENTION POLICY " + id() + " ON " + id() + " DURATION " + dur() + " REPLICATION " + strconv.Itoa(r.Range(1, 3)) + r.Pick([]string{"", " SHARD DURATION 1h", " DEFAULT", " SHARD DURATION 30m DEFAULT", " FUTURE LIMIT 1h", " DEFAULT FUTURE LIMIT 6h PAST LIMIT 1d", " PAST LIMIT 30m", " SHARD DURATION INF"})
 		},
 		func() string {
-			return "ALTER RETENTION POLICY " + id() + " ON " + id() + r.Pick([]string{" DURATION 1d", " REPLICATION 2", " DEFAULT", " DURATION 2h REPLICATION 1 SHARD DURATION 1h DEFAULT", " SHARD DURATION 10m"})
+			return "ALTER RETENTION POLICY " + id() + " ON " + id() + r.Pick([]string{" DURATION 1d", " REPLICATION 2", " DEFAULT", " DURATION 2h REPLICATION 1 SHARD DURATION 1h DEFAULT", " SHARD DURATION 10m", " FUTURE LIMIT 2h", " PAST LIMIT 1w FUTURE LIMIT 1h", " DURATION 1d DURATION 2d", " SHARD DURATION INF"})
 		},
 		func() string { return "DROP RETENTION POLICY " + id() + " ON " + id() },
 		func() string { return "CREATE USER " + id() + " WITH PASSWORD " + str() + r.Pick([]string{"", " WITH ALL PRIVILEGES"}) },
